@@ -17,6 +17,11 @@ func init() {
 			checkPersistNotViaHookSlot(c, p, R, "C09.R1")
 			runPersist(c, p, R, map[string]string{"C09.R2": "C09.R2", "C09.R3": "C09.R3", "C09.R4": "C09.R4", "C13.R1": "C09.R2"})
 			c.Floor("C09.R2", "Append sites", c.Stats["persist_append_sites"], 1)
+			// the name recorded is EventType's, and EventType derives it from the value at hand
+			checkEventTypeSpec(c, p, R, "C09.R3")
+			if pd := c.Prog(ModDurable); pd != nil {
+				checkWriters(c, pd, "C09.R5", []writerSpec{{PkgDurable, "Store", nil}})
+			}
 			checkMemoryStoreAppend(c, p, "C09.R4")
 			c.Rule("C09.R5", "the bundled SQLite store can append while a read cursor is open (pool not capped to one connection, no exclusive locking mode)")
 			if ps := c.Prog(ModSQLite); ps != nil {
